@@ -319,14 +319,20 @@ def reference(kind, content, refdir, stats):
 # --------------------------------------------------------------------------------------
 ENTRIES = ['client', 'client_params', 'cli', 'main_argv', 'hip']
 OUT_FORMS = ['absent', 'rel', 'rel_nested', 'rel_nosuffix', 'rel_oneletter', 'rel_repeated', 'abs', 'abs_nosuffix',
-             'rel_tilde', 'rel_tildedir', 'rel_symlink', 'rel_dotdot', 'rel_dot', 'rel_upper', 'rel_dotted', 'rel_txt', 'rel_linkdotdot', 'rel_dash']
-CWD_DIRS = ['cwd0', 'cwd with space', 'deep/x/y/z', 'decoy', 'w']
+             'rel_tilde', 'rel_tildedir', 'rel_symlink', 'rel_dotdot', 'rel_dot', 'rel_upper', 'rel_dotted', 'rel_txt', 'rel_linkdotdot', 'rel_dash',
+             # characters that mean something to a formatting or configuration layer a path may be passed through ('%' to
+             # %-formatting and configparser interpolation, braces to str.format, '$' to shells and templates), and names that
+             # another kind of file usually has
+             'rel_percent', 'abs_percent', 'rel_braces', 'rel_logname', 'rel_jsonname']
+CWD_DIRS = ['cwd0', 'cwd with space', 'deep/x/y/z', 'decoy', 'w', 'util 90% runs']
 ARGVS = [['caller'], ['pytest', '-ra', '-q'], ['prog', 'a.txt', 'b.out'], []]
 OUT_NAMES = {'rel': 'result.out', 'rel_nested': 'sub dir/nested.out', 'rel_nosuffix': 'r', 'rel_oneletter': 'o.t',
              'rel_repeated': 'out.d/out', 'abs': 'res.abs.out', 'abs_nosuffix': 'absreport', 'rel_tilde': '~run1/out.txt',
              'rel_tildedir': '~/out.txt', 'rel_symlink': 'latest.out', 'rel_dotdot': '../sibling dir/out.txt', 'rel_dot': './dot.out',
              'rel_upper': 'Report.OUT', 'rel_dotted': 'v1.2/res.v3.out', 'rel_txt': 'case.txt',
-             'rel_linkdotdot': 'outlnk/../via.out', 'rel_dash': '-dash.out'}
+             'rel_linkdotdot': 'outlnk/../via.out', 'rel_dash': '-dash.out',
+             'rel_percent': 'drawdown_5%.out', 'abs_percent': '100%s/%(x)s.out', 'rel_braces': '{case}_$HOME.out', 'rel_logname': 'run1.log',
+             'rel_jsonname': 'result.json.out'}
 FAULTS = ['enospc', 'eio', 'eacces', 'vanish', 'cancel']
 FAULT_AT = [1, 2, 3, 4, 5, 6, 7, 8, 10, 12, 15, 20, 25, 30, 40]
 # (the last one lives in the decoy directory under a name that also exists, relative to the package directory, in the
@@ -519,10 +525,17 @@ def gen_history(cs, templates, tier, force=None):
             if not slots:
                 continue
             sl = sorted(slots)[cs.choose(len(slots), 'rwslot')]
-            if cs.choose(4, 'neighbour') < p_neighbour:
+            past = [r_ for r_ in slots[sl].get('past', []) if r_ != slots[sl]['req']]
+            if past and cs.choose(3, 'back') == 2:
+                # back to a content this file held before (A, B, A): whatever is remembered per path or per content from the
+                # first time meets the file again after something else was there
+                req = past[cs.choose(len(past), 'backto')]
+                h['back_to_earlier_content'] = h.get('back_to_earlier_content', 0) + 1
+            elif cs.choose(4, 'neighbour') < p_neighbour:
                 req = gen_request(cs, templates, neighbour_of=slots[sl]['req'])
             else:
                 req = gen_request(cs, templates, slots[sl]['kind'], allow_slow, family=fam)
+            slots[sl].setdefault('past', []).append(slots[sl]['req'])
             slots[sl]['req'] = req
             ops.append({'op': 'write', 'slot': sl, 'req': req, 'kind': slots[sl]['kind'], 'keep_mtime': cs.choose(4, 'keep_mtime') == 3})
             if slots[sl]['kind'] == 'hip' and theme == 'hip':
@@ -792,6 +805,8 @@ class Exec:
     # ---- main loop -------------------------------------------------------------------
     def run(self):
         from geophires_x_client import GeophiresXClient
+        for _ in range(self.h.get('back_to_earlier_content', 0)):
+            self.probe('input_rewritten_back_to_an_earlier_content')
         self.clients = [GeophiresXClient(enable_caching=True), GeophiresXClient(enable_caching=False),
                         GeophiresXClient(enable_caching=True)]
         self.set_model()
@@ -1159,7 +1174,12 @@ class Exec:
             return
         if 'unit_spellings' not in _state:
             _state['unit_spellings'] = tokenizer.unit_spellings()
-        problems, st = tokenizer.check_json(report, jobj, _state['unit_spellings'])
+        if 'unit_registry' not in _state:
+            try:
+                _state['unit_registry'] = tokenizer.unit_registry()
+            except Exception:  # noqa: BLE001
+                _state['unit_registry'] = None
+        problems, st = tokenizer.check_json(report, jobj, _state['unit_spellings'], _state['unit_registry'])
         for kkey in st:
             self.parse_stats[kkey] = self.parse_stats.get(kkey, 0) + st[kkey]
         for cls, cause, detail in problems[:3]:
